@@ -38,6 +38,7 @@ type allSite struct {
 	Fn    string `json:"fn"`
 	Kind  string `json:"kind"`
 	Expr  string `json:"expr"`
+	Raw   string `json:"raw"`
 	Class string `json:"class"`
 	Rule  string `json:"rule,omitempty"`
 	Count int    `json:"count"`
@@ -226,7 +227,7 @@ func (w *walker) syntacticRule(kind string, n ast.Node) string {
 		x := exprText(fset, ie.X)
 		i := exprText(fset, ie.Index)
 		if w.isRangeKey(i, x) {
-			return "range-index"
+			return "loop-index"
 		}
 		if intLit.MatchString(i) {
 			c, _ := strconv.Atoi(i)
@@ -251,8 +252,46 @@ func (w *walker) isRangeKey(v, x string) bool {
 				return true
 			}
 		}
+		// for i := c; i < len(X); i++ { … X[i] … }   with c >= 0, body assigns neither i nor X
+		if fs, ok := w.stack[i].(*ast.ForStmt); ok && w.isIndexLoop(fs, v, x) {
+			return true
+		}
 	}
 	return false
+}
+
+func (w *walker) isIndexLoop(fs *ast.ForStmt, v, x string) bool {
+	as, ok := fs.Init.(*ast.AssignStmt)
+	if !ok || as.Tok != token.DEFINE || len(as.Lhs) != 1 || len(as.Rhs) != 1 {
+		return false
+	}
+	if exprText(w.fset, as.Lhs[0]) != v || !intLit.MatchString(exprText(w.fset, as.Rhs[0])) {
+		return false
+	}
+	if fs.Cond == nil || exprText(w.fset, fs.Cond) != v+" < len("+x+")" {
+		return false
+	}
+	inc, ok := fs.Post.(*ast.IncDecStmt)
+	if !ok || inc.Tok != token.INC || exprText(w.fset, inc.X) != v {
+		return false
+	}
+	clean := true
+	ast.Inspect(fs.Body, func(n ast.Node) bool {
+		switch s := n.(type) {
+		case *ast.AssignStmt:
+			for _, l := range s.Lhs {
+				if t := exprText(w.fset, l); t == v || t == x {
+					clean = false
+				}
+			}
+		case *ast.IncDecStmt:
+			if exprText(w.fset, s.X) == v {
+				clean = false
+			}
+		}
+		return clean
+	})
+	return clean
 }
 
 // lenGuard: is len(x) > c established on the path to node n?
@@ -361,9 +400,9 @@ func collectAll(repo string) ([]allSite, []string, error) {
 			for _, n := range names {
 				files = append(files, pkg.Files[n])
 			}
-			info := &types.Info{Types: map[ast.Expr]types.TypeAndValue{}}
+			info := &types.Info{Types: map[ast.Expr]types.TypeAndValue{}, Defs: map[*ast.Ident]types.Object{}, Uses: map[*ast.Ident]types.Object{}}
 			conf := types.Config{Importer: &fakeImporter{map[string]*types.Package{}}, Error: func(error) {}}
-			conf.Check(pkg.Name, fset, files, info)
+			tpkg, _ := conf.Check(pkg.Name, fset, files, info)
 			for _, file := range files {
 				for _, decl := range file.Decls {
 					fd, ok := decl.(*ast.FuncDecl)
@@ -386,13 +425,14 @@ func collectAll(repo string) ([]allSite, []string, error) {
 						}
 						return true
 					})
+					nz := newNormalizer(fset, info, tpkg, fd)
 					add := func(kind string, n ast.Node, text ast.Node) {
-						t := exprText(fset, text)
+						t := nz.text(text)
 						key := fmt.Sprintf("%s.%s|%s|%s", pkgName, fn, kind, t)
 						rule := w.syntacticRule(kind, n)
 						s := counts[key]
 						if s == nil {
-							s = &allSite{Key: key, Pkg: pkgName, Fn: fn, Kind: kind, Expr: t, Rule: rule}
+							s = &allSite{Key: key, Pkg: pkgName, Fn: fn, Kind: kind, Expr: t, Raw: exprText(fset, text), Rule: rule}
 							counts[key] = s
 							order = append(order, key)
 						} else if rule == "" {
@@ -482,6 +522,32 @@ func collectAll(repo string) ([]allSite, []string, error) {
 
 var tableKeyRe = regexp.MustCompile(`(?m)^  \(("(?:[^"\\]|\\.)*"), `)
 
+// readMainTable returns the keys of `def siteTable` (without `siteTableExtra`).
+func readMainTable(path string) (map[string]bool, error) {
+	data, err := os.ReadFile(path)
+	if err != nil {
+		return nil, err
+	}
+	s := string(data)
+	a := strings.Index(s, "def siteTable ")
+	if a < 0 {
+		return nil, fmt.Errorf("def siteTable not found in %s", path)
+	}
+	b := strings.Index(s[a:], "\n]\n")
+	if b < 0 {
+		return nil, fmt.Errorf("end of siteTable not found")
+	}
+	keys := map[string]bool{}
+	for _, m := range tableKeyRe.FindAllStringSubmatch(s[a:a+b], -1) {
+		k, err := strconv.Unquote(m[1])
+		if err != nil {
+			return nil, fmt.Errorf("site table: cannot unquote %s", m[1])
+		}
+		keys[k] = true
+	}
+	return keys, nil
+}
+
 func readTheoremKeys(path string) (map[string]bool, error) {
 	data, err := os.ReadFile(path)
 	if err != nil {
@@ -498,8 +564,12 @@ func readTheoremKeys(path string) (map[string]bool, error) {
 	return keys, nil
 }
 
-func readOracleKeys(path string) (map[string]bool, error) {
-	keys := map[string]bool{}
+// readOracle reads translate/panicsites/oracle_sites.txt: one line per (package, kind, normalised
+// expression) with the number of occurrences that are accepted as oracle-only:
+//
+//	pkg|kind|expr<TAB>count
+func readOracle(path string) (map[string]int, error) {
+	keys := map[string]int{}
 	f, err := os.Open(path)
 	if err != nil {
 		return keys, err
@@ -512,19 +582,28 @@ func readOracleKeys(path string) (map[string]bool, error) {
 		if l == "" || strings.HasPrefix(l, "#") {
 			continue
 		}
-		keys[l] = true
+		n := 1
+		if i := strings.LastIndex(l, "\t"); i >= 0 {
+			if v, err := strconv.Atoi(strings.TrimSpace(l[i+1:])); err == nil {
+				n = v
+				l = l[:i]
+			}
+		}
+		keys[l] += n
 	}
 	return keys, nil
 }
 
 type allResult struct {
-	Packages     []string       `json:"packages"`
-	Counts       map[string]int `json:"counts"`
-	Occurrences  map[string]int `json:"occurrences"`
-	Rules        map[string]int `json:"syntactic_rules"`
-	Unclassified []string       `json:"unclassified"`
-	StaleOracle  []string       `json:"stale_oracle"`
-	Sites        []allSite      `json:"sites"`
+	Packages     []string            `json:"packages"`
+	Counts       map[string]int      `json:"counts"`
+	Occurrences  map[string]int      `json:"occurrences"`
+	Rules        map[string]int      `json:"syntactic_rules"`
+	Unclassified []string            `json:"unclassified"`
+	Residual     map[string]int      `json:"residual"`
+	StaleOracle  []string            `json:"stale_oracle"`
+	Sites        []allSite           `json:"sites"`
+	Pass1        []map[string]string `json:"pass1"`
 }
 
 // classifyAll runs the whole-program pass.
@@ -538,30 +617,53 @@ func classifyAll(repo, verif string) (*allResult, error) {
 		return nil, err
 	}
 	here := filepath.Join(verif, "translate", "panicsites")
-	orc, _ := readOracleKeys(filepath.Join(here, "oracle_sites.txt"))
+	orc, _ := readOracle(filepath.Join(here, "oracle_sites.txt"))
 	r := &allResult{Packages: dirs, Counts: map[string]int{}, Occurrences: map[string]int{}, Rules: map[string]int{}}
-	seen := map[string]bool{}
+	// oracle-class entries carry no proof: they are matched by (package, kind, normalised expression)
+	// as a multiset, the function name is only a hint
+	gkey := func(s *allSite) string { return s.Pkg + "|" + s.Kind + "|" + s.Expr }
+	rest := map[string]int{}
+	fns := map[string][]string{}
 	for i := range sites {
 		s := &sites[i]
-		seen[s.Key] = true
 		switch {
 		case thm[s.Key]:
 			s.Class = "theorem"
 		case s.Rule != "":
 			s.Class = "syntactic"
 			r.Rules[s.Rule]++
-		case orc[s.Key]:
-			s.Class = "oracle"
 		default:
-			s.Class = "unclassified"
-			r.Unclassified = append(r.Unclassified, s.Key)
+			rest[gkey(s)] += s.Count
+			fns[gkey(s)] = append(fns[gkey(s)], s.Fn)
+		}
+	}
+	r.Residual = rest
+	for i := range sites {
+		s := &sites[i]
+		if s.Class == "" {
+			if rest[gkey(s)] <= orc[gkey(s)] {
+				s.Class = "oracle"
+			} else {
+				s.Class = "unclassified"
+			}
 		}
 		r.Counts[s.Class]++
 		r.Occurrences[s.Class] += s.Count
 	}
-	for k := range orc {
-		if !seen[k] {
-			r.StaleOracle = append(r.StaleOracle, k)
+	var gks []string
+	for k := range rest {
+		gks = append(gks, k)
+	}
+	sort.Strings(gks)
+	for _, k := range gks {
+		if rest[k] > orc[k] {
+			r.Unclassified = append(r.Unclassified,
+				fmt.Sprintf("%s (%d occurrences, %d listed as oracle-only; in %s)", k, rest[k], orc[k], strings.Join(fns[k], ", ")))
+		}
+	}
+	for k, n := range orc {
+		if rest[k] < n {
+			r.StaleOracle = append(r.StaleOracle, fmt.Sprintf("%s (%d listed, %d found)", k, n, rest[k]))
 		}
 	}
 	sort.Strings(r.StaleOracle)
